@@ -624,10 +624,13 @@ class C04(Check):
         return None
 
     def known(self, ctx, finding):
+        """replay the witness of a known finding on the implementation: does containment still fail?"""
         data = finding['witness']['data']
         real = parse_real(data['damaged'])
         orig = parse_real(data['original'])
-        return strip_proj(real) != strip_proj(orig) if 'expect_equal' in data else True
+        if isinstance(real, tuple) or isinstance(orig, tuple):
+            return True
+        return not G.equal_apart_from(strip_proj(real), strip_proj(orig), [])
 
     # -- replay ---------------------------------------------------------------------------------------------
     def replay(self, ctx, data):
